@@ -334,6 +334,25 @@ def c12(tier, seed, t0):
                     assumptions=["two real lexer / pipeline runs per path class on the same symbolic characters"])
 
 
+@register("C16")
+def c16(tier, seed, t0):
+    from harness import options as H
+    res = R.run_pool(H.HNAME, H.chunks(tier), 170 if tier == "quick" else 2400, seed, tier,
+                     extra=dict(sample_rate=0.1 if tier == "quick" else 0.03, chunk_time=60 if tier == "quick" else 300))
+    agg = R.merge(res)
+    bounds = dict(pipeline_runs="per path class: debug 0, debug D (solver-chosen 1..2), -R <word> (3 or 11 symbolic letters, != CheckDefine), -R CheckDefine",
+                  texts=dict(define_programs=sorted(H.DEFINE_PROGS), edited_programs="one inserted lexeme (length 1..3, solver-chosen spelling) at every "
+                             "4th (quick) / every (thorough) token boundary of fn.c, gl.c (+ ty.h, pp.c thorough)"),
+                  cli=dict(content="--cfile / --hfile content of 0..2 (quick) / 0..3 (thorough) symbolic ASCII characters vs the same content read from n.c / n.h",
+                           options=H.OPTS, note="argparse runs for real on the other arguments; the content argument is substituted after parsing"),
+                  outside="-f json with symbolic diagnostics (json.dumps is C code; format equality is C08's subject); longer inline contents")
+    return R.report("C16", H.HNAME, tier, seed, agg, t0, bounds, functions=PIPE_FUNCS + [
+        "norminette.__main__.main", "File.source", "Context.__init__ (debug, skip_define)", "CheckPreprocessorDefine.run",
+        "IsExpressionStatement (debug-dependent branch)", "CheckUtypeDeclaration (debug-dependent branch)"],
+        assumptions=["stub: open() of the one scratch file returns the symbolic content (C16c)",
+                     "only files analysed to a verdict in both configurations are compared (the property's restriction)"])
+
+
 def main():
     ap = argparse.ArgumentParser()
     ap.add_argument("prop")
